@@ -1566,6 +1566,22 @@ def check_C18(ck):
         for b in (v2 if thorough else rng.sample(v2, 5) + [a]):
             c_ = (F2.lt(b, a)) - (F2.lt(a, b))
             cmp_pairs.append(("fq2", _f2s(a), _f2s(b), c_, _f2s(a if c_ == 1 else b), _f2s(b if c_ == 1 else a)))
+    # pairs that agree in every limb above the deciding one and whose deciding 64-bit limbs differ by 2^63 or more (where
+    # the sign of a wrapping limb difference is the wrong way round), the deciding limb at every position, both orders
+    for k in range(6):
+        for (lo, hi) in ((0, (1 << 63) + 5), (3, (1 << 63) + 3), (1, (1 << 64) - 1), ((1 << 63) - 1, (1 << 64) - 2)):
+            base_hi = ((Q >> (64 * (k + 1))) >> 1) << (64 * (k + 1))          # common upper limbs, below q
+            a, b = base_hi | (lo << (64 * k)) | 9 * (k > 0), base_hi | (hi << (64 * k))
+            if a >= Q or b >= Q:
+                continue
+            for (x, y) in ((a, b), (b, a)):
+                cmp_pairs.append(("fq", "%x" % x, "%x" % y, (x > y) - (x < y), "%x" % max(x, y), "%x" % min(x, y)))
+                for (xa, xb) in (((x, 1), (y, 1)), ((0, x), (0, y)), ((x, 7), (y, 0))):     # c0 decides / c1 decides / c1 decides against c0
+                    c_ = (F2.lt(xb, xa)) - (F2.lt(xa, xb))
+                    cmp_pairs.append(("fq2", _f2s(xa), _f2s(xb), c_, _f2s(xa if c_ == 1 else xb), _f2s(xb if c_ == 1 else xa)))
+            if k < 4 and b < R:
+                for (x, y) in ((a, b), (b, a)):
+                    cmp_pairs.append(("fr", "%x" % x, "%x" % y, (x > y) - (x < y), "%x" % max(x, y), "%x" % min(x, y)))
     for (f, a, b, c_, mx, mn) in cmp_pairs:
         tb = lambda v: "true" if v else "false"
         cases.append(("%s/compare-all-entry-points" % f, "%s cmpall %s %s" % (f, a, b)))
